@@ -384,3 +384,12 @@ Example C02_delete_lines_then_P_examples :
   /\ o_text (put false 1 (run_op_v OpDelete [] t VDown None 0)) = t
   /\ line_start_from (o_text (run_lines OpDelete [] t 1 3)) (o_cur (run_lines OpDelete [] t 1 3)) = line_start_from t 3.
 Proof. vm_compute. repeat split. Qed.
+
+(** (25) ... and the cursor d leaves is on that line, so: d over whole lines (dd, dj, dk, dG, with any count), then P,
+    gives the text as it was - whenever the lines are not the last of the text. *)
+Theorem C02_delete_lines_P_roundtrip :
+  forall (ins t : text) (i a b : nat) (kc : bool),
+    (a <= b <= length t)%nat -> (line_end t b < length t)%nat ->
+    o_text (put false 1 (apply_op OpDelete ins (mkO t i None) (RLines a b kc))) = t.
+Proof. exact delete_lines_P_roundtrip. Qed.
+Print Assumptions C02_delete_lines_P_roundtrip.
